@@ -90,13 +90,13 @@ def run(replay=None):
             big = []
             if not over_storage and n.split('/')[-1].split('.')[2] == 'u64' or (not over_storage and tc == 'f32'):
                 if tc == 'f32':
-                    big = [sc.fbits(tc, v) for v in (8388607.5, 8388608.0, 8388609.0, 16777216.0, 16777215.0, 4194303.5, 4194304.5, 2097151.25)]
+                    big = [sc.fbits(tc, v) for v in (8388607.5, 8388608.0, 8388609.0, 16777216.0, 16777215.0, 4194303.5, 4194304.5, 2097151.25, 4194305.0, 4194307.0, 4194305.5, 6291457.0, 8388607.0, 5000001.0, 12582913.0)]
                 else:
-                    big = [sc.fbits(tc, v) for v in (8388608.5, 16777217.0, 16777216.5, 4503599627370495.5, 4503599627370496.0, 4503599627370497.0, 2251799813685247.5, 33554433.0, 1073741824.5)]
+                    big = [sc.fbits(tc, v) for v in (8388608.5, 16777217.0, 16777216.5, 4503599627370495.5, 4503599627370496.0, 4503599627370497.0, 2251799813685247.5, 33554433.0, 1073741824.5, 2251799813685249.0, 3377699720527873.0, 4503599627370495.0, 4194305.0)]
                 if n.split('/')[-1].split('.')[2] in ('i32', 'u32'):
                     big = [b for b in big if abs(sc.bits_f(tc, b)) < 2 ** 31 - 1]
             for q in range(60 if thorough else 30):
-                c = [r.choice(pools[i] + (big if r.below(6) == 0 else [])) for i in range(k.n)]
+                c = [r.choice(big) if (big and r.below(4) == 0) else r.choice(pools[i]) for i in range(k.n)]
                 coords.append(c)
             cases.append((n, toks, coords))
     if replay:
